@@ -63,3 +63,94 @@ Theorem C19_array_run_finish : forall ops : list arr_op,
   arr_finish (fst (arr_run arr_create (map (fun o => (true, o)) ops))) = Ok (fst (aspec_run [] ops)).
 Proof. exact arr_run_finish. Qed.
 Print Assumptions C19_array_run_finish.
+
+(* ---- doubly linked list (src/lib/dsa/ares_llist.c): Dsa/LList.v, Dsa/LList_proofs.v ---- *)
+From CAres.Dsa Require Import LList LList_proofs.
+
+(* the invariant [ll_inv h s] (heap h represents the finite set of lists s) holds initially *)
+Theorem C19_llist_inv_create : ll_inv ll_heap_empty ll_spec_empty.
+Proof. exact ll_inv_empty. Qed.
+Print Assumptions C19_llist_inv_create.
+
+(* one API call whose node / list arguments are alive (NULL allowed): never UB, never out of
+   fuel, returns what the list specification returns, re-establishes the invariant *)
+Theorem C19_llist_exec_refines : forall h s o, ll_inv h s ->
+  forallb (ll_sp_node_live s) (ll_op_nodes o) && forallb (ll_sp_list_live s) (ll_op_lists o) = true ->
+  exists h', ll_exec h o = Ok (h', snd (ll_spec_exec s o)) /\ ll_inv h' (fst (ll_spec_exec s o)).
+Proof. exact ll_exec_refines. Qed.
+Print Assumptions C19_llist_exec_refines.
+
+(* one step of a caller that never passes dangling pointers (such calls are skipped, and model
+   and specification agree on which pointers dangle) *)
+Theorem C19_llist_step_refines : forall h s o, ll_inv h s ->
+  exists h', ll_model_step h o = Ok (h', snd (ll_spec_step s o)) /\ ll_inv h' (fst (ll_spec_step s o)).
+Proof. exact ll_step_refines. Qed.
+Print Assumptions C19_llist_step_refines.
+
+(* MAIN: for every operation sequence over any number of lists, starting from nothing, the
+   code-shaped model yields exactly the results and observations of the list specification:
+   after every operation, every result and, for every live list, the forward traversal
+   (node, value, parent), the backward traversal and len *)
+Theorem C19_llist_run_refines : forall ops,
+  ll_run_model ll_heap_empty ops = Ok (ll_run_spec ll_spec_empty ops).
+Proof. exact ll_run_refines_from_create. Qed.
+Print Assumptions C19_llist_run_refines.
+
+(* the same from any state satisfying the invariant *)
+Theorem C19_llist_run_refines_inv : forall ops h s, ll_inv h s ->
+  ll_run_model h ops = Ok (ll_run_spec s ops).
+Proof. exact ll_run_refines. Qed.
+Print Assumptions C19_llist_run_refines_inv.
+
+(* the invariant holds after every operation sequence *)
+Theorem C19_llist_inv_reachable : forall ops h s, ll_inv h s ->
+  exists h', ll_model_after h ops = Ok h' /\ ll_inv h' (ll_spec_after s ops).
+Proof. exact ll_inv_reachable. Qed.
+Print Assumptions C19_llist_inv_reachable.
+
+(* C19_llist_order: forward traversal (head, next, ...) = the specification list, every node's
+   parent is the list; backward traversal (tail, prev, ...) = its reverse; len = its length;
+   the traversal fuel (number of nodes ever created) is never exhausted *)
+Theorem C19_llist_order : forall h s l sl, ll_inv h s -> nth_error (sp_lists s) l = Some (Some sl) ->
+  ll_observe_list h l =
+  Ok (mkLV (map (fun x => (fst x, snd x, Some l)) (sl_items sl)) (rev (sl_items sl)) (length (sl_items sl))).
+Proof. exact ll_order. Qed.
+Print Assumptions C19_llist_order.
+
+Theorem C19_llist_fwd_rev_bwd : forall h s l sl v, ll_inv h s -> nth_error (sp_lists s) l = Some (Some sl) ->
+  ll_observe_list h l = Ok v ->
+  map (fun x => (fst (fst x), snd (fst x))) (lv_fwd v) = rev (lv_bwd v) /\
+  lv_len v = length (lv_fwd v) /\ lv_len v = length (lv_bwd v) /\
+  forall x, In x (lv_fwd v) -> snd x = Some l.
+Proof. exact ll_fwd_rev_bwd. Qed.
+Print Assumptions C19_llist_fwd_rev_bwd.
+
+(* all live lists at once *)
+Theorem C19_llist_observe : forall h s, ll_inv h s -> ll_observe h = Ok (ll_spec_observe s).
+Proof. exact ll_observe_ok. Qed.
+Print Assumptions C19_llist_observe.
+
+(* every allocated node is in exactly one list at exactly one position, its parent pointer
+   names that list and its value is the specification's; members are allocated *)
+Theorem C19_llist_one_owner : forall h s n, ll_inv h s -> ll_node_live h n = true ->
+  exists l sl p v,
+    nth_error (sp_lists s) l = Some (Some sl) /\ nth_error (sl_items sl) p = Some (n, v) /\
+    ll_node_parent h (Some n) = Ok (Some l) /\ ll_node_val h (Some n) = Ok v /\
+    forall l' sl' p' v', nth_error (sp_lists s) l' = Some (Some sl') ->
+      nth_error (sl_items sl') p' = Some (n, v') -> l' = l /\ p' = p /\ v' = v.
+Proof. exact ll_one_owner. Qed.
+Print Assumptions C19_llist_one_owner.
+
+Theorem C19_llist_members_live : forall h s l sl p n v, ll_inv h s ->
+  nth_error (sp_lists s) l = Some (Some sl) -> nth_error (sl_items sl) p = Some (n, v) ->
+  ll_node_live h n = true.
+Proof. exact ll_members_live. Qed.
+Print Assumptions C19_llist_members_live.
+
+(* C14 (atomicity): with a failing allocator create / insert_* return NULL and neither the
+   heap nor the specification state changes *)
+Theorem C19_llist_alloc_fail_atomic : forall h s o, ll_inv h s -> ll_is_failing_alloc o = true ->
+  exists r, ll_model_step h o = Ok (h, r) /\ ll_spec_step s o = (s, r) /\
+            (r = RSkip \/ r = RNode None \/ r = RList None).
+Proof. exact ll_step_alloc_fail_atomic. Qed.
+Print Assumptions C19_llist_alloc_fail_atomic.
